@@ -219,6 +219,10 @@ def signature(d, a=None, b=None):
         # they need an operand whose own elements meet away from common end points
         v = d.get("variant", "")
         sig["selfNoding"] = self_noding(a) if v in ("aa", "ae", "ea", "a") else (self_noding(a) or self_noding(b))
+    if sig["gc"] and sig["class"] == "pointset" and d["op"] in ("int", "uni", "dif", "sym") and not sig.get("selfNoding") and near:
+        # a collection whose own elements do not meet is not re-noded by StructuredCollection: an INEXACT near-incidence failure on it is the
+        # recorded floating-noder robustness family of the non-collection case (thorough tier: 1 case in 40 000)
+        return {"class": "pointset", "gc": False, "nearIncidence": True}
     if sig["gc"] and sig["class"] == "pointset" and d["op"] == "uu":
         # the recorded unary-union defect needs linework of one element running through another element (a line crossing a polygon ring):
         # a collection whose elements do not meet each other is not that family.  (Variant gab = the collection {A, B}: not refined.)
